@@ -189,6 +189,28 @@ def _linalg_norm(x, *a, **kw):
     return np.linalg.norm(x, *a, **kw)
 
 
+def _isnan(x, **kw):
+    kw.pop("like", None)
+    if _symbolic_in(x):
+        arr = np.asarray(_obj(x))
+        out = np.zeros(arr.shape, dtype=bool)
+        for i, v in np.ndenumerate(arr):
+            out[i] = isinstance(v, (float, np.floating)) and bool(np.isnan(v))      # a symbolic real is a real number
+        return out if out.shape != () else bool(out)
+    return np.isnan(x, **kw)
+
+
+def _isinf(x, **kw):
+    kw.pop("like", None)
+    if _symbolic_in(x):
+        arr = np.asarray(_obj(x))
+        out = np.zeros(arr.shape, dtype=bool)
+        for i, v in np.ndenumerate(arr):
+            out[i] = isinstance(v, (float, np.floating)) and bool(np.isinf(v))
+        return out if out.shape != () else bool(out)
+    return np.isinf(x, **kw)
+
+
 def _isclose(a, b, rtol=1e-05, atol=1e-08, equal_nan=False, **kw):
     """numpy's definition |a - b| <= atol + rtol*|b|, kept symbolic (a mask / a SymBool) when either side is symbolic"""
     kw.pop("like", None)
@@ -233,11 +255,14 @@ def install():
     reg("numpy", "asarray", _asarray)
     reg("numpy", "linalg.norm", _linalg_norm)
     reg("numpy", "take", _take)
+    reg("numpy", "isnan", _isnan)
+    reg("numpy", "isinf", _isinf)
     reg("numpy", "isclose", _isclose)
     reg("numpy", "allclose", _allclose)
     for name in ("zeros", "ones", "zeros_like", "ones_like", "stack", "concatenate", "copy", "clone", "reshape", "tile",
                  "atleast_1d", "atleast_2d", "array", "sum", "transpose", "eye", "diag", "empty", "full", "sort",
-                 "swapaxes", "ravel", "squeeze", "expand_dims", "cumsum", "prod", "max", "min", "arange", "linspace"):
+                 "swapaxes", "ravel", "squeeze", "expand_dims", "cumsum", "prod", "max", "min", "arange", "linspace",
+                 "flip", "diff", "moveaxis", "broadcast_to", "repeat", "roll", "dot", "matmul", "outer", "mean", "hstack", "vstack", "meshgrid"):
         try:
             base = getattr(np, name) if name != "clone" else np.copy
         except AttributeError:
